@@ -1154,8 +1154,9 @@ fn c09(args: Args) {
     let mut run = Run::new(
         args.clone(),
         "exploration",
-        "the release binary on loopback, one instance per mode (authoritative-only; recursion offered with a forwarder on a closed \
-         port), 8 client threads each owning its sockets and issuing strictly increasing IDs so that (socket, ID) identifies a \
+        "the release binary on loopback, one instance per mode (authoritative-only; recursion offered, forwarding to a small stateless \
+         forwarder on loopback that knows a positive answer, an alias, a name error and an empty answer - the last two with a \
+         SOA to relay - and refuses the rest), 8 client threads each owning its sockets and issuing strictly increasing IDs so that (socket, ID) identifies a \
          message. UDP: zone questions (answers, >512-byte RRsets, alias chains and loops, wildcards, delegation, NXDOMAIN, hosts, \
          unanswerable) x 11 qtypes x RD; every qtype 0..260 and 65535; 8 classes; QDCOUNT 0..3; 0..11-byte datagrams; all 65536 \
          values of the flag octets on a valid question; generated valid messages incl. responses; random query-like bytes; \
